@@ -1,48 +1,227 @@
 /-
-The simulation behind `C01.refines_partial`: every specification state `s` satisfying `Inv`
-is seen by the model as `absW s`, and one step of the model from `absW s` is one step of the
-specification – provided the step does not re-link an open reader with unanswered requests.
+The simulation behind `C01.refines`: the index-addressed model (`Uniflow.Writer`, with link
+generations) and the id-keyed specification (`Uniflow.WriterSpec`) are related by `Rel`, and one
+step of the model from a related state is one step of the specification – for every step.
+
+The model's queues hold link generations, the specification's hold write ids; `FifoOK` relates
+them entry by entry: an entry whose generation is the reader's current link generation belongs to
+the oldest row that still owes the reader an answer, any other entry (a request of a link that
+`Unlink` removed) belongs to a write whose row owes the reader nothing.
 -/
 import Uniflow.Proofs.Writer
 
 namespace Uniflow.WriterProofs
 open Uniflow.Writer Uniflow.WriterSpec
 
-/-- The model state that corresponds to a specification state: columns instead of reader ids,
-counts instead of the queues of write ids. -/
-def absW (s : S) : W :=
-  { readers := s.linked
-    rows := s.rows.map SRow.cells
-    done := s.done
-    pend := fun r => if s.closed r then 0 else (s.owed r).length
-    closed := s.closed
-    drops := fun r => if s.closed r then (s.owed r).length else 0 }
+/-! ### Link generations -/
 
-/-- What `r` is owed according to the rows agrees with its queue – or `r` is closed and was
-re-linked, then no row expects anything from it. -/
-def OweOK (s : S) (r : RId) : Prop :=
-  owedBy s.rows r = s.owed r ∨ (s.closed r = true ∧ owedBy s.rows r = [])
+/-- `linkOf` by recursion on the two parallel lists. -/
+def linkAt (r : RId) : List RId → List Nat → Option Nat
+  | x :: xs, g :: gs => if x = r then some g else linkAt r xs gs
+  | _, _ => none
+
+theorem linkOf_eq (m : W) (r : RId) : linkOf m r = linkAt r m.readers m.links := by
+  simp only [linkOf]
+  generalize m.readers = xs
+  generalize m.links = gs
+  induction xs generalizing gs with
+  | nil => simp [indexOf, linkAt]
+  | cons x xs ih =>
+    cases gs with
+    | nil =>
+      simp only [indexOf, linkAt]
+      split
+      · simp
+      · cases indexOf r xs <;> simp
+    | cons g gs =>
+      simp only [indexOf, linkAt]
+      by_cases hx : x = r
+      · simp [hx]
+      · simp only [hx, if_false]
+        rw [← ih gs]
+        cases indexOf r xs <;> simp
+
+theorem linkAt_not_mem {r : RId} {xs : List RId} (gs : List Nat) (h : r ∉ xs) : linkAt r xs gs = none := by
+  induction xs generalizing gs with
+  | nil => simp [linkAt]
+  | cons x xs ih =>
+    cases gs with
+    | nil => simp [linkAt]
+    | cons g gs =>
+      simp only [List.mem_cons, not_or] at h
+      have hx : ¬ x = r := fun e => h.1 e.symm
+      simp only [linkAt, hx, if_false]
+      exact ih gs h.2
+
+theorem linkAt_mem {r : RId} {xs : List RId} {gs : List Nat} {g : Nat} (h : linkAt r xs gs = some g) : g ∈ gs := by
+  induction xs generalizing gs with
+  | nil => simp [linkAt] at h
+  | cons x xs ih =>
+    cases gs with
+    | nil => simp [linkAt] at h
+    | cons g' gs =>
+      simp only [linkAt] at h
+      split at h
+      · injection h with h; simp [h]
+      · simp [ih h]
+
+theorem linkAt_some_of_mem {r : RId} {xs : List RId} {gs : List Nat} (h : r ∈ xs) (hl : gs.length = xs.length) :
+    ∃ g, linkAt r xs gs = some g := by
+  induction xs generalizing gs with
+  | nil => cases h
+  | cons x xs ih =>
+    cases gs with
+    | nil => simp at hl
+    | cons g' gs =>
+      simp only [linkAt]
+      by_cases hx : x = r
+      · exact ⟨g', by simp [hx]⟩
+      · simp only [hx, if_false]
+        simp only [List.mem_cons] at h
+        rcases h with h | h
+        · exact absurd h.symm hx
+        · exact ih h (by simpa using hl)
+
+theorem linkAt_append {r y : RId} {xs : List RId} {gs : List Nat} (g : Nat) (hl : gs.length = xs.length) :
+    linkAt r (xs ++ [y]) (gs ++ [g]) =
+      match linkAt r xs gs with
+      | some l => some l
+      | none => if y = r then some g else none := by
+  induction xs generalizing gs with
+  | nil =>
+    cases gs with
+    | nil => simp [linkAt]
+    | cons _ _ => simp at hl
+  | cons x xs ih =>
+    cases gs with
+    | nil => simp at hl
+    | cons g' gs =>
+      simp only [List.cons_append, linkAt]
+      by_cases hx : x = r
+      · simp [hx]
+      · simp only [hx, if_false]
+        exact ih (by simpa using hl)
+
+theorem linkAt_eraseIdx {r r' : RId} {xs : List RId} (gs : List Nat) {i : Nat} (hi : indexOf r xs = some i)
+    (hne : r' ≠ r) : linkAt r' (xs.eraseIdx i) (gs.eraseIdx i) = linkAt r' xs gs := by
+  induction xs generalizing gs i with
+  | nil => simp [indexOf] at hi
+  | cons x xs ih =>
+    simp only [indexOf] at hi
+    split at hi
+    · rename_i hx
+      injection hi with hi; subst hi
+      cases gs with
+      | nil => simp [linkAt]
+      | cons g gs =>
+        simp only [List.eraseIdx_zero, List.tail_cons, linkAt]
+        rw [if_neg (fun e => hne (e.symm.trans hx))]
+    · rename_i hx
+      simp only [Option.map_eq_some_iff] at hi
+      obtain ⟨j, hj, rfl⟩ := hi
+      cases gs with
+      | nil => simp [linkAt]
+      | cons g gs =>
+        simp only [List.eraseIdx_cons_succ, linkAt]
+        rw [ih gs hj]
+
+/-! ### The queues -/
+
+/-- Queue of generations `gs` (model) against queue of write ids `ws` (specification) for a
+reader whose current link generation is `cur`; `ob` = ids of the rows that owe the reader an
+answer, oldest first. -/
+def FifoOK (cur : Option Nat) : List Nat → List Nat → List Nat → Prop
+  | [], [], ob => ob = []
+  | g :: gs, w :: ws, ob =>
+    if some g = cur then ∃ ob', ob = w :: ob' ∧ FifoOK cur gs ws ob'
+    else w ∉ ob ∧ FifoOK cur gs ws ob
+  | _, _, _ => False
+
+theorem fifoOK_len {cur : Option Nat} {gs ws ob : List Nat} (h : FifoOK cur gs ws ob) : gs.length = ws.length := by
+  induction gs generalizing ws ob with
+  | nil => cases ws <;> simp_all [FifoOK]
+  | cons g gs ih =>
+    cases ws with
+    | nil => simp [FifoOK] at h
+    | cons w ws =>
+      simp only [FifoOK] at h
+      split at h
+      · obtain ⟨ob', _, h'⟩ := h; simp [ih h']
+      · simp [ih h.2]
+
+theorem fifoOK_stale {cur : Option Nat} {gs ws : List Nat} (hl : gs.length = ws.length)
+    (hs : ∀ g ∈ gs, some g ≠ cur) : FifoOK cur gs ws [] := by
+  induction gs generalizing ws with
+  | nil => cases ws <;> simp_all [FifoOK]
+  | cons g gs ih =>
+    cases ws with
+    | nil => simp at hl
+    | cons w ws =>
+      simp only [FifoOK]
+      rw [if_neg (hs g (by simp))]
+      exact ⟨by simp, ih (by simpa using hl) (fun g' hg' => hs g' (by simp [hg']))⟩
+
+theorem fifoOK_push {cur : Option Nat} {gs ws ob : List Nat} {g w : Nat} (h : FifoOK cur gs ws ob)
+    (hg : some g = cur) (hw : ∀ w' ∈ ws, w' ≠ w) : FifoOK cur (gs ++ [g]) (ws ++ [w]) (ob ++ [w]) := by
+  induction gs generalizing ws ob with
+  | nil =>
+    cases ws with
+    | nil =>
+      simp only [FifoOK] at h; subst h
+      simp only [List.nil_append, FifoOK, hg, if_true]
+      exact ⟨[], rfl, rfl⟩
+    | cons _ _ => simp [FifoOK] at h
+  | cons g0 gs ih =>
+    cases ws with
+    | nil => simp [FifoOK] at h
+    | cons w0 ws =>
+      simp only [FifoOK] at h
+      simp only [List.cons_append, FifoOK]
+      have hw' : ∀ w' ∈ ws, w' ≠ w := fun w' hw'' => hw w' (by simp [hw''])
+      split at h
+      · rename_i hc
+        obtain ⟨ob', e, h'⟩ := h
+        rw [if_pos hc]
+        exact ⟨ob' ++ [w], by simp [e], ih h' hw'⟩
+      · rename_i hc
+        rw [if_neg hc]
+        refine ⟨?_, ih h.2 hw'⟩
+        simp only [List.mem_append, List.mem_singleton, not_or]
+        exact ⟨h.1, hw w0 (by simp)⟩
+
+/-! ### The relation -/
+
+/-- The reader's queue as the writer sees it: its requests while it is open, the drop notices in
+flight once it is closed. -/
+def fifo (m : W) (r : RId) : List Nat := if m.closed r then m.drops r else m.pend r
 
 structure Inv (s : S) : Prop where
   nodup : s.linked.Nodup
   rows : RowsOK s.linked s.nextW s.rows
-  owe : ∀ r ∈ s.linked, OweOK s r
   head : ∀ row rest, s.rows = row :: rest → hasNil row.cells = true
   fin : s.done = true → s.linked = []
+  owedLt : ∀ r, ∀ w ∈ s.owed r, w < s.nextW
 
-theorem inv_init : Inv S.init :=
-  ⟨by simp [S.init], ⟨by simp [S.init], by simp [S.init], by simp [S.init], by simp [S.init]⟩,
-   by simp [S.init], by simp [S.init], by simp [S.init]⟩
+structure Rel (m : W) (s : S) : Prop where
+  readers : m.readers = s.linked
+  rows : m.rows = s.rows.map SRow.cells
+  done : m.done = s.done
+  closed : m.closed = s.closed
+  linksLen : m.links.length = m.readers.length
+  linksLe : ∀ g ∈ m.links, g ≤ m.linked
+  fifoLe : ∀ r, ∀ g ∈ fifo m r, g ≤ m.linked
+  pendClosed : ∀ r, m.closed r = true → m.pend r = []
+  dropsOpen : ∀ r, m.closed r = false → m.drops r = []
+  fifo : ∀ r, FifoOK (linkOf m r) (fifo m r) (s.owed r) (owedBy s.rows r)
+  inv : Inv s
 
-theorem absW_init : absW S.init = W.init := by
-  simp [absW, S.init, W.init]
+theorem rel_init : Rel W.init S.init := by
+  refine ⟨rfl, rfl, rfl, rfl, rfl, by simp [W.init], by simp [W.init, fifo], fun _ _ => rfl, fun _ _ => rfl, ?_, ?_⟩
+  · intro r; simp [W.init, S.init, fifo, FifoOK, owedBy]
+  · exact ⟨by simp [S.init], ⟨by simp [S.init], by simp [S.init], by simp [S.init], by simp [S.init]⟩,
+      by simp [S.init], by simp [S.init], by simp [S.init]⟩
 
-theorem W_eq {m m' : W} (h1 : m.readers = m'.readers) (h2 : m.rows = m'.rows) (h3 : m.done = m'.done)
-    (h4 : ∀ r, m.pend r = m'.pend r) (h5 : ∀ r, m.closed r = m'.closed r) (h6 : ∀ r, m.drops r = m'.drops r) :
-    m = m' := by
-  cases m; cases m'
-  simp only [W.mk.injEq]
-  exact ⟨h1, h2, h3, funext h4, funext h5, funext h6⟩
+/-! ### Helper lemmas on rows -/
 
 theorem cfirst_isSome {srows : List SRow} {r : RId} {w : Nat} {rest : List Nat} (a : Ans)
     (ho : owedBy srows r = w :: rest) : ∃ rows', cfirst r a srows = some rows' := by
@@ -76,105 +255,6 @@ theorem indexOf_some_of_mem {r : RId} {l : List RId} (h : r ∈ l) : ∃ i, inde
   | none => exact absurd h (indexOf_none.1 hi)
   | some i => exact ⟨i, rfl⟩
 
-def arrived (s : S) (rows' : List SRow) : S :=
-  { s with rows := (WriterSpec.flush rows').1, emittedIds := s.emittedIds ++ (WriterSpec.flush rows').2.2 }
-
-/-- An answer / drop notice for write `w` arriving: `(*Writer).receive` against `arrive`. -/
-theorem sim_arrive {s : S} (w : Nat) (r : RId) (a : Ans)
-    (hnd : s.linked.Nodup) (hrows : RowsOK s.linked s.nextW s.rows)
-    (hhead : ∀ row rest, s.rows = row :: rest → hasNil row.cells = true)
-    (hfin : s.done = true → s.linked = [])
-    (hother : ∀ r' ∈ s.linked, r' ≠ r → OweOK s r')
-    (hr : r ∈ s.linked → owedBy s.rows r = w :: s.owed r ∨ (s.closed r = true ∧ owedBy s.rows r = [])) :
-    receive (absW s) a r = (absW (arrive s w r a).1, (arrive s w r a).2) ∧ Inv (arrive s w r a).1 := by
-  by_cases hd : s.done = true
-  · have hl := hfin hd
-    refine ⟨by simp [receive, arrive, absW, hd], ?_⟩
-    simp only [arrive, hd, if_true]
-    exact ⟨hnd, hrows, by simp [hl], hhead, hfin⟩
-  have hd' : s.done = false := by simpa using hd
-  by_cases hm : r ∈ s.linked
-  rotate_left
-  · have hi := indexOf_none.2 hm
-    refine ⟨by simp [receive, arrive, absW, hd', hm, hi], ?_⟩
-    simp only [arrive, hd', hm, not_false_eq_true, if_true, Bool.false_eq_true, if_false]
-    exact ⟨hnd, hrows, fun r' hr' => hother r' hr' (fun e => hm (e ▸ hr')), hhead, hfin⟩
-  obtain ⟨i, hi⟩ := indexOf_some_of_mem hm
-  have hmf := mfill_cfirst a hrows.pref hnd hi
-  rcases hr hm with hl | ⟨hc, hn⟩
-  · obtain ⟨rows', hcf⟩ := cfirst_isSome a hl
-    have hcr := credit_eq_cfirst a hrows.wids hl
-    rw [hcf] at hcr
-    rw [hcf] at hmf
-    obtain ⟨e1, e2, e3, e4⟩ := cfirst_effect hcf
-    have hrows' : RowsOK s.linked s.nextW rows' := hrows.of_map_eq e3 e4
-    -- the specification's result
-    have hinv : Inv (arrived s rows') := by
-      refine ⟨hnd, hrows'.flush, ?_, flush_head rows', by simp [arrived, hd']⟩
-      intro r'' hr''
-      by_cases e : r'' = r
-      · subst e
-        left
-        show owedBy (WriterSpec.flush rows').1 r'' = s.owed r''
-        rw [owedBy_flush, e1, hl]; rfl
-      · have := hother r'' hr'' e
-        simp only [OweOK] at this ⊢
-        show owedBy (WriterSpec.flush rows').1 r'' = s.owed r'' ∨
-          (s.closed r'' = true ∧ owedBy (WriterSpec.flush rows').1 r'' = [])
-        rw [owedBy_flush, e2 r'' e]
-        exact this
-    have harr : arrive s w r a = (arrived s rows', Out.mk (.ok true) (WriterSpec.flush rows').2.1 []) := by
-      simp [arrive, arrived, hd', hm, hcr]
-    rw [harr]
-    refine ⟨?_, hinv⟩
-    cases hih : indexOfHead i (s.rows.map SRow.cells) with
-    | panic => exact absurd hih (indexOfHead_ne_panic _ _)
-    | notFound =>
-      have := indexOfHead_notFound a hih
-      rw [hmf] at this; simp at this
-    | found h =>
-      obtain ⟨mrows', hset, hmf', hne0⟩ := indexOfHead_found a hih
-      rw [hmf] at hmf'
-      simp only [Option.map_some, Option.some.injEq] at hmf'
-      subst hmf'
-      by_cases h0 : h = 0
-      · have hne : ∀ row ∈ rows'.map SRow.cells, row ≠ [] :=
-          cells_nonempty_of_readers (e3 ▸ readers_nonempty hrows.chain hhead)
-        have hfl := (flush_false_eq _ hne).trans (mflush_eq rows')
-        subst h0
-        simp [receive, absW, arrived, hd', hi, hih, hset, hfl]
-      · obtain ⟨row, rest, rest', hre, _, hre'⟩ := hne0 h0
-        have hflush : WriterSpec.flush rows' = (rows', [], []) := by
-          cases hs : s.rows with
-          | nil => simp [hs] at hre
-          | cons srow srest =>
-            have hh := hhead srow srest hs
-            simp only [hs, List.map_cons, List.cons.injEq] at hre
-            cases rows' with
-            | nil => simp at hre'
-            | cons srow' srest' =>
-              simp only [List.map_cons, List.cons.injEq] at hre'
-              apply flush_of_head
-              rw [hre'.1, ← hre.1]; exact hh
-        simp [receive, absW, arrived, hd', hi, hih, hset, h0, hflush]
-  · have := credit_none_of_owedBy_nil w a hn
-    rw [this.2] at hmf
-    have harr : arrive s w r a = (s, Out.mk (.ok false) [] []) := by
-      simp [arrive, hd', hm, this.1]
-    rw [harr]
-    refine ⟨?_, hnd, hrows, ?_, hhead, hfin⟩
-    · cases hih : indexOfHead i (s.rows.map SRow.cells) with
-      | panic => exact absurd hih (indexOfHead_ne_panic _ _)
-      | notFound => simp [receive, absW, hd', hi, hih]
-      | found h =>
-        obtain ⟨mrows', _, hmf', _⟩ := indexOfHead_found a hih
-        rw [hmf] at hmf'; simp at hmf'
-    · intro r' hr'
-      by_cases e : r' = r
-      · subst e; exact Or.inr ⟨hc, hn⟩
-      · exact hother r' hr' e
-
-/-! ### The individual steps -/
 
 theorem owedBy_not_linked {rows : List SRow} {linked : List RId} {r : RId}
     (hp : ∀ p ∈ rows.map SRow.readers, p <+: linked) (hr : r ∉ linked) : owedBy rows r = [] := by
@@ -184,40 +264,6 @@ theorem owedBy_not_linked {rows : List SRow} {linked : List RId} {r : RId}
   have : r ∉ row.slots.map Prod.fst := fun h => hr (hpre.subset h)
   rw [owes_def, owesS_not_mem this]; simp
 
-theorem sim_link {s : S} (hI : Inv s) (r : RId) (hn : relinkPending (absW s) (.link r) = false) :
-    Writer.step (absW s) (.link r) = (absW (WriterSpec.step s (.link r)).1, (WriterSpec.step s (.link r)).2) ∧
-      Inv (WriterSpec.step s (.link r)).1 := by
-  by_cases hd : s.done = true
-  · exact ⟨by simp [Writer.step, WriterSpec.step, absW, hd], by simpa [WriterSpec.step, hd] using hI⟩
-  have hd' : s.done = false := by simpa using hd
-  by_cases hm : r ∈ s.linked
-  · exact ⟨by simp [Writer.step, WriterSpec.step, absW, hd', hm], by simpa [WriterSpec.step, hd', hm] using hI⟩
-  refine ⟨by simp [Writer.step, WriterSpec.step, absW, hd', hm], ?_⟩
-  simp only [WriterSpec.step, hd', hm, Bool.false_eq_true, if_false]
-  refine ⟨?_, ⟨?_, hI.rows.chain, hI.rows.wids, hI.rows.widlt⟩, ?_, hI.head, by simp [hd']⟩
-  · show (s.linked ++ [r]).Nodup
-    rw [List.nodup_append]
-    refine ⟨hI.nodup, by simp, ?_⟩
-    intro a ha b hb
-    simp only [List.mem_singleton] at hb
-    subst hb
-    exact fun e => hm (e ▸ ha)
-  · intro p hp
-    exact (hI.rows.pref p hp).trans (List.prefix_append _ _)
-  · intro r' hr'
-    show owedBy s.rows r' = s.owed r' ∨ (s.closed r' = true ∧ owedBy s.rows r' = [])
-    have hr'' : r' ∈ s.linked ++ [r] := hr'
-    simp only [List.mem_append, List.mem_singleton] at hr''
-    rcases hr'' with h | h
-    · exact hI.owe r' h
-    · subst h
-      have h0 := owedBy_not_linked hI.rows.pref hm
-      by_cases hc : s.closed r' = true
-      · exact Or.inr ⟨hc, h0⟩
-      · left
-        simp only [relinkPending, absW, hd', hm, hc] at hn
-        have : s.owed r' = [] := by simpa using hn
-        rw [h0, this]
 
 theorem drop_cells_row {row : SRow} {linked : List RId} {r : RId} {i : Nat}
     (hp : row.readers <+: linked) (hnd : linked.Nodup) (hi : indexOf r linked = some i) :
@@ -244,54 +290,6 @@ theorem drop_owedBy (rows : List SRow) {r r' : RId} (h : r' ≠ r) :
     have : (row.drop r).owes r' = row.owes r' := drop_owes_other row.slots h
     rw [this]; rfl
 
-theorem sim_unlink {s : S} (hI : Inv s) (r : RId) :
-    Writer.step (absW s) (.unlink r) = (absW (WriterSpec.step s (.unlink r)).1, (WriterSpec.step s (.unlink r)).2) ∧
-      Inv (WriterSpec.step s (.unlink r)).1 := by
-  by_cases hd : s.done = true
-  · exact ⟨by simp [Writer.step, WriterSpec.step, absW, hd], by simpa [WriterSpec.step, hd] using hI⟩
-  have hd' : s.done = false := by simpa using hd
-  by_cases hm : r ∈ s.linked
-  rotate_left
-  · have hi := indexOf_none.2 hm
-    exact ⟨by simp [Writer.step, WriterSpec.step, absW, hd', hm, hi], by simpa [WriterSpec.step, hd', hm] using hI⟩
-  obtain ⟨i, hi⟩ := indexOf_some_of_mem hm
-  have hcols : eraseCol i (s.rows.map SRow.cells) = (s.rows.map (·.drop r)).map SRow.cells := by
-    simp only [eraseCol, List.map_map]
-    apply List.map_congr_left
-    intro row hrow
-    simp only [Function.comp]
-    exact (drop_cells_row (hI.rows.pref _ (List.mem_map_of_mem hrow)) hI.nodup hi).symm
-  have hfl := mflush_eq (s.rows.map (·.drop r))
-  have hrd := filter_ne_eq_eraseIdx hi hI.nodup
-  have hrd' : List.filter (fun x => !decide (x = r)) s.linked = s.linked.eraseIdx i := by simpa using hrd
-  simp only [List.map_map] at hfl hcols
-  refine ⟨by simp [Writer.step, WriterSpec.step, absW, hd', hm, hi, hcols, hfl, hrd'], ?_⟩
-  simp only [WriterSpec.step, hd', hm, Bool.false_eq_true, if_false, not_true_eq_false]
-  have hreaders : (s.rows.map (·.drop r)).map SRow.readers = (s.rows.map SRow.readers).map (·.filter (· ≠ r)) := by
-    simp only [List.map_map]
-    apply List.map_congr_left
-    intro row _
-    exact drop_readers row.slots r
-  have hwid : (s.rows.map (·.drop r)).map (·.wid) = s.rows.map (·.wid) := by
-    simp only [List.map_map]; rfl
-  have hok : RowsOK (s.linked.filter (· ≠ r)) s.nextW (s.rows.map (·.drop r)) := by
-    refine ⟨?_, ?_, hwid ▸ hI.rows.wids, hwid ▸ hI.rows.widlt⟩
-    · rw [hreaders]
-      intro p hp
-      obtain ⟨q, hq, rfl⟩ := List.mem_map.1 hp
-      exact (hI.rows.pref q hq).filter _
-    · rw [hreaders, List.pairwise_map]
-      exact hI.rows.chain.imp fun h => h.filter _
-  refine ⟨hI.nodup.filter _, hok.flush, ?_, flush_head _, by simp [hd']⟩
-  intro r' hr'
-  have hr'' : r' ∈ s.linked.filter (· ≠ r) := hr'
-  simp only [List.mem_filter, decide_eq_true_eq] at hr''
-  have := hI.owe r' hr''.1
-  simp only [OweOK] at this
-  show owedBy (WriterSpec.flush (s.rows.map (·.drop r))).1 r' = s.owed r' ∨
-    (s.closed r' = true ∧ owedBy (WriterSpec.flush (s.rows.map (·.drop r))).1 r' = [])
-  rw [owedBy_flush, drop_owedBy _ hr''.2]
-  exact this
 
 theorem mem_accepting {closed : RId → Bool} {l : List RId} {r : RId} :
     r ∈ accepting closed l ↔ r ∈ l ∧ closed r = false := by
@@ -314,50 +312,441 @@ theorem newSlots_owes (closed : RId → Bool) (l : List RId) (r : RId) :
 def newSRow (s : S) : SRow :=
   { wid := s.nextW, slots := s.linked.map fun r => (r, if s.closed r then some Ans.none else none) }
 
-theorem sim_write {s : S} (hI : Inv s) (v : Nat) :
-    Writer.step (absW s) (.write v) = (absW (WriterSpec.step s (.write v)).1, (WriterSpec.step s (.write v)).2) ∧
-      Inv (WriterSpec.step s (.write v)).1 := by
+
+theorem arrive_ret (s : S) (w : Nat) (r : RId) (a : Ans) : ∃ b, (arrive s w r a).2.ret = .ok b := by
+  simp only [arrive]
+  split
+  · exact ⟨_, rfl⟩
+  · split
+    · exact ⟨_, rfl⟩
+    · split <;> exact ⟨_, rfl⟩
+
+
+/-! ### An answer or drop notice arriving -/
+
+theorem credit_mem {w : Nat} {r : RId} {a : Ans} {rows rows' : List SRow} (h : credit w r a rows = some rows') :
+    w ∈ owedBy rows r := by
+  induction rows generalizing rows' with
+  | nil => simp [credit] at h
+  | cons row tl ih =>
+    simp only [credit] at h
+    rw [owedBy_cons]
+    split at h
+    · rename_i hw
+      split at h
+      · rename_i ho; simp [ho, hw]
+      · simp at h
+    · cases hc : credit w r a tl with
+      | none => simp [hc] at h
+      | some tl' =>
+        have := ih hc
+        split <;> simp [this]
+
+theorem arrive_fields (s : S) (w : Nat) (r : RId) (a : Ans) :
+    (arrive s w r a).1.linked = s.linked ∧ (arrive s w r a).1.done = s.done ∧
+    (arrive s w r a).1.closed = s.closed ∧ (arrive s w r a).1.owed = s.owed ∧
+    (arrive s w r a).1.nextW = s.nextW := by
+  simp only [arrive]
+  split
+  · exact ⟨rfl, rfl, rfl, rfl, rfl⟩
+  split
+  · exact ⟨rfl, rfl, rfl, rfl, rfl⟩
+  split <;> exact ⟨rfl, rfl, rfl, rfl, rfl⟩
+
+theorem W_rows_self {m : W} {x : List Row} (h : m.rows = x) : { m with rows := x } = m := by
+  cases m; simp only at h; subst h; rfl
+
+def arrived (s : S) (rows' : List SRow) : S :=
+  { s with rows := (WriterSpec.flush rows').1, emittedIds := s.emittedIds ++ (WriterSpec.flush rows').2.2 }
+
+/-- `(*Writer).receive(a, r, g)` against `arrive s w r a`, where `(g, w)` is the entry just
+popped from the reader's queue: if `g` is the reader's current link generation the oldest row
+owing `r` is the row of `w`; otherwise no row owes `r` an answer for `w`. -/
+theorem sim_arrive {m : W} {s : S} (w g : Nat) (r : RId) (a : Ans)
+    (hre : m.readers = s.linked) (hro : m.rows = s.rows.map SRow.cells) (hdo : m.done = s.done)
+    (hll : m.links.length = m.readers.length) (hI : Inv s)
+    (hq : if some g = linkOf m r then ∃ ob', owedBy s.rows r = w :: ob' else w ∉ owedBy s.rows r) :
+    (receive m a r g).2 = (arrive s w r a).2 ∧
+    (receive m a r g).1 = { m with rows := (arrive s w r a).1.rows.map SRow.cells } ∧
+    Inv (arrive s w r a).1 ∧
+    (∀ r', r' ≠ r → owedBy (arrive s w r a).1.rows r' = owedBy s.rows r') ∧
+    owedBy (arrive s w r a).1.rows r =
+      (if some g = linkOf m r then (owedBy s.rows r).tail else owedBy s.rows r) := by
+  have hnd := hI.nodup
+  have hrows := hI.rows
+  have hhead := hI.head
+  -- the three ways in which nothing happens
+  have nothing : (receive m a r g).2 = Out.mk (.ok false) [] [] → (receive m a r g).1 = m →
+      arrive s w r a = (s, Out.mk (.ok false) [] []) → ¬ some g = linkOf m r →
+      (receive m a r g).2 = (arrive s w r a).2 ∧
+      (receive m a r g).1 = { m with rows := (arrive s w r a).1.rows.map SRow.cells } ∧
+      Inv (arrive s w r a).1 ∧
+      (∀ r', r' ≠ r → owedBy (arrive s w r a).1.rows r' = owedBy s.rows r') ∧
+      owedBy (arrive s w r a).1.rows r =
+        (if some g = linkOf m r then (owedBy s.rows r).tail else owedBy s.rows r) := by
+    intro h1 h2 h3 h4
+    rw [h1, h2, h3]
+    exact ⟨rfl, (W_rows_self hro).symm, hI, fun _ _ => rfl, by rw [if_neg h4]⟩
   by_cases hd : s.done = true
-  · exact ⟨by simp [Writer.step, WriterSpec.step, absW, hd], by simpa [WriterSpec.step, hd] using hI⟩
+  · have hl := hI.fin hd
+    have hmd : m.done = true := hdo.trans hd
+    have hno : linkOf m r = none := by
+      rw [linkOf_eq, hre, hl]; simp [linkAt]
+    apply nothing
+    · simp [receive, receiveWith, hmd]
+    · simp [receive, receiveWith, hmd]
+    · simp [arrive, hd]
+    · rw [hno]; simp
   have hd' : s.done = false := by simpa using hd
+  have hmd : m.done = false := hdo.trans hd'
+  by_cases hm : r ∈ s.linked
+  rotate_left
+  · have hi : indexOf r m.readers = none := by rw [hre]; exact indexOf_none.2 hm
+    have hno : linkOf m r = none := by simp [linkOf, hi]
+    apply nothing
+    · simp [receive, receiveWith, hmd, hi]
+    · simp [receive, receiveWith, hmd, hi]
+    · simp [arrive, hd', hm]
+    · rw [hno]; simp
+  obtain ⟨i, hi⟩ := indexOf_some_of_mem hm
+  have hi' : indexOf r m.readers = some i := by rw [hre]; exact hi
+  have hilt : i < m.links.length := by rw [hll, hre]; exact indexOf_lt hi
+  obtain ⟨l, hlk⟩ : ∃ l, m.links[i]? = some l := ⟨m.links[i], List.getElem?_eq_getElem hilt⟩
+  have hlo : linkOf m r = some l := by simp [linkOf, hi', hlk]
+  rw [hlo] at hq ⊢
+  by_cases hg : g = l
+  rotate_left
+  · have hne : ¬ some g = some l := by simpa using hg
+    rw [if_neg hne] at hq
+    have hcr : credit w r a s.rows = none := by
+      cases hc : credit w r a s.rows with
+      | none => rfl
+      | some rows' => exact absurd (credit_mem hc) hq
+    have hlg : (l != g) = true := by simpa using fun e => hg e.symm
+    have := nothing (by simp [receive, receiveWith, hmd, hi', hlk, hlg]) (by simp [receive, receiveWith, hmd, hi', hlk, hlg])
+      (by simp [arrive, hd', hm, hcr]) (by rw [hlo]; exact hne)
+    rw [hlo] at this
+    exact this
+  subst hg
+  rw [if_pos rfl] at hq ⊢
+  obtain ⟨ob', hl⟩ := hq
+  have hlg : (g != g) = false := by simp
+  have hmf := mfill_cfirst a hrows.pref hnd hi
+  obtain ⟨rows', hcf⟩ := cfirst_isSome a hl
+  have hcr := credit_eq_cfirst a hrows.wids hl
+  rw [hcf] at hcr
+  rw [hcf] at hmf
+  obtain ⟨e1, e2, e3, e4⟩ := cfirst_effect hcf
+  have hrows' : RowsOK s.linked s.nextW rows' := hrows.of_map_eq e3 e4
+  have hinv : Inv (arrived s rows') :=
+    ⟨hnd, hrows'.flush, flush_head rows', by simp [arrived, hd'], hI.owedLt⟩
+  have harr : arrive s w r a = (arrived s rows', Out.mk (.ok true) (WriterSpec.flush rows').2.1 []) := by
+    simp [arrive, arrived, hd', hm, hcr]
+  rw [harr]
+  have hmodel : (receive m a r g).2 = Out.mk (.ok true) (WriterSpec.flush rows').2.1 [] ∧
+      (receive m a r g).1 = { m with rows := (WriterSpec.flush rows').1.map SRow.cells } := by
+    cases hih : indexOfHead i (s.rows.map SRow.cells) with
+    | panic => exact absurd hih (indexOfHead_ne_panic _ _)
+    | notFound =>
+      have := indexOfHead_notFound a hih
+      rw [hmf] at this; simp at this
+    | found h =>
+      obtain ⟨mrows', hset, hmf', hne0⟩ := indexOfHead_found a hih
+      rw [hmf] at hmf'
+      simp only [Option.map_some, Option.some.injEq] at hmf'
+      subst hmf'
+      by_cases h0 : h = 0
+      · have hne : ∀ row ∈ rows'.map SRow.cells, row ≠ [] :=
+          cells_nonempty_of_readers (e3 ▸ readers_nonempty hrows.chain hhead)
+        have hfl := (flush_false_eq _ hne).trans (mflush_eq rows')
+        subst h0
+        simp [receive, receiveWith, hmd, hi', hlk, hlg, hro, hih, hset, hfl]
+      · obtain ⟨row, rest, rest', hre1, _, hre'⟩ := hne0 h0
+        have hflush : WriterSpec.flush rows' = (rows', [], []) := by
+          cases hs : s.rows with
+          | nil => simp [hs] at hre1
+          | cons srow srest =>
+            have hh := hhead srow srest hs
+            simp only [hs, List.map_cons, List.cons.injEq] at hre1
+            cases rows' with
+            | nil => simp at hre'
+            | cons srow' srest' =>
+              simp only [List.map_cons, List.cons.injEq] at hre'
+              apply flush_of_head
+              rw [hre'.1, ← hre1.1]; exact hh
+        simp [receive, receiveWith, hmd, hi', hlk, hlg, hro, hih, hset, h0, hflush]
+  refine ⟨hmodel.1, hmodel.2, hinv, ?_, ?_⟩
+  · intro r' hne
+    show owedBy (WriterSpec.flush rows').1 r' = _
+    rw [owedBy_flush, e2 r' hne]
+  · show owedBy (WriterSpec.flush rows').1 r = _
+    rw [owedBy_flush, e1]
+
+/-! ### The individual steps -/
+
+theorem sim_link {m : W} {s : S} (hR : Rel m s) (r : RId) :
+    (Writer.step m (.link r)).2 = (WriterSpec.step s (.link r)).2 ∧
+      Rel (Writer.step m (.link r)).1 (WriterSpec.step s (.link r)).1 := by
+  by_cases hd : s.done = true
+  · have hmd : m.done = true := hR.done.trans hd
+    have e1 : Writer.step m (.link r) = (m, Out.mk (.ok false) [] []) := by simp [Writer.step, stepWith, hmd]
+    have e2 : WriterSpec.step s (.link r) = (s, Out.mk (.ok false) [] []) := by simp [WriterSpec.step, hd]
+    rw [e1, e2]; exact ⟨rfl, hR⟩
+  have hd' : s.done = false := by simpa using hd
+  have hmd : m.done = false := hR.done.trans hd'
+  by_cases hm : r ∈ s.linked
+  · have hm' : r ∈ m.readers := hR.readers ▸ hm
+    have e1 : Writer.step m (.link r) = (m, Out.mk (.ok false) [] []) := by simp [Writer.step, stepWith, hmd, hm']
+    have e2 : WriterSpec.step s (.link r) = (s, Out.mk (.ok false) [] []) := by simp [WriterSpec.step, hd', hm]
+    rw [e1, e2]; exact ⟨rfl, hR⟩
+  have hm' : r ∉ m.readers := hR.readers ▸ hm
+  have e1 : Writer.step m (.link r) =
+      ({ m with linked := m.linked + 1, readers := m.readers ++ [r], links := m.links ++ [m.linked + 1] },
+       Out.mk (.ok true) [] []) := by simp [Writer.step, stepWith, hmd, hm']
+  have e2 : WriterSpec.step s (.link r) = ({ s with linked := s.linked ++ [r] }, Out.mk (.ok true) [] []) := by
+    simp [WriterSpec.step, hd', hm]
+  rw [e1, e2]
+  refine ⟨rfl, ?_⟩
+  have hI := hR.inv
+  refine ⟨by simp [hR.readers], hR.rows, hR.done, hR.closed, by simp [hR.linksLen], ?_, ?_, hR.pendClosed, hR.dropsOpen, ?_, ?_⟩
+  · intro g hg
+    simp only [List.mem_append, List.mem_singleton] at hg
+    rcases hg with hg | hg
+    · exact Nat.le_succ_of_le (hR.linksLe g hg)
+    · simp [hg]
+  · intro r' g hg
+    exact Nat.le_succ_of_le (hR.fifoLe r' g hg)
+  · intro r'
+    show FifoOK (linkOf { m with linked := m.linked + 1, readers := m.readers ++ [r], links := m.links ++ [m.linked + 1] } r')
+      (fifo m r') (s.owed r') (owedBy s.rows r')
+    rw [linkOf_eq]
+    show FifoOK (linkAt r' (m.readers ++ [r]) (m.links ++ [m.linked + 1])) _ _ _
+    rw [linkAt_append _ hR.linksLen]
+    have hold := hR.fifo r'
+    rw [linkOf_eq] at hold
+    by_cases e : r = r'
+    · subst e
+      rw [linkAt_not_mem _ hm']
+      simp only [if_true]
+      have h0 := owedBy_not_linked hI.rows.pref hm
+      rw [h0] at hold ⊢
+      apply fifoOK_stale (fifoOK_len hold)
+      intro g hg
+      have := hR.fifoLe r g hg
+      simp only [ne_eq, Option.some.injEq]
+      omega
+    · cases hl : linkAt r' m.readers m.links with
+      | some l => rw [hl] at hold; simpa using hold
+      | none => rw [hl] at hold; simpa [e] using hold
+  · refine ⟨?_, ⟨?_, hI.rows.chain, hI.rows.wids, hI.rows.widlt⟩, hI.head, by simp [hd'], hI.owedLt⟩
+    · show (s.linked ++ [r]).Nodup
+      rw [List.nodup_append]
+      refine ⟨hI.nodup, by simp, ?_⟩
+      intro a ha b hb
+      simp only [List.mem_singleton] at hb
+      subst hb
+      exact fun e => hm (e ▸ ha)
+    · intro p hp
+      exact (hI.rows.pref p hp).trans (List.prefix_append _ _)
+
+theorem sim_unlink {m : W} {s : S} (hR : Rel m s) (r : RId) :
+    (Writer.step m (.unlink r)).2 = (WriterSpec.step s (.unlink r)).2 ∧
+      Rel (Writer.step m (.unlink r)).1 (WriterSpec.step s (.unlink r)).1 := by
+  have hI := hR.inv
+  by_cases hd : s.done = true
+  · have hmd : m.done = true := hR.done.trans hd
+    have e1 : Writer.step m (.unlink r) = (m, Out.mk (.ok false) [] []) := by simp [Writer.step, stepWith, hmd]
+    have e2 : WriterSpec.step s (.unlink r) = (s, Out.mk (.ok false) [] []) := by simp [WriterSpec.step, hd]
+    rw [e1, e2]; exact ⟨rfl, hR⟩
+  have hd' : s.done = false := by simpa using hd
+  have hmd : m.done = false := hR.done.trans hd'
+  by_cases hm : r ∈ s.linked
+  rotate_left
+  · have hi : indexOf r m.readers = none := by rw [hR.readers]; exact indexOf_none.2 hm
+    have e1 : Writer.step m (.unlink r) = (m, Out.mk (.ok false) [] []) := by simp [Writer.step, stepWith, hmd, hi]
+    have e2 : WriterSpec.step s (.unlink r) = (s, Out.mk (.ok false) [] []) := by simp [WriterSpec.step, hd', hm]
+    rw [e1, e2]; exact ⟨rfl, hR⟩
+  obtain ⟨i, hi⟩ := indexOf_some_of_mem hm
+  have hi' : indexOf r m.readers = some i := by rw [hR.readers]; exact hi
+  have hilt : i < s.linked.length := indexOf_lt hi
+  have hill : ¬ m.links.length ≤ i := by rw [hR.linksLen, hR.readers]; omega
+  have hcols : eraseCol i (s.rows.map SRow.cells) = (s.rows.map (·.drop r)).map SRow.cells := by
+    simp only [eraseCol, List.map_map]
+    apply List.map_congr_left
+    intro row hrow
+    simp only [Function.comp]
+    exact (drop_cells_row (hI.rows.pref _ (List.mem_map_of_mem hrow)) hI.nodup hi).symm
+  have hfl := mflush_eq (s.rows.map (·.drop r))
+  have hrd := filter_ne_eq_eraseIdx hi hI.nodup
+  have e1 : Writer.step m (.unlink r) =
+      ({ m with readers := m.readers.eraseIdx i, links := m.links.eraseIdx i,
+                rows := (Writer.flush true (eraseCol i m.rows)).1 },
+       Out.mk (.ok true) (Writer.flush true (eraseCol i m.rows)).2 []) := by
+    simp [Writer.step, stepWith, hmd, hi', hill]
+  have e2 : WriterSpec.step s (.unlink r) =
+      ({ s with linked := s.linked.filter (· ≠ r), rows := (WriterSpec.flush (s.rows.map (·.drop r))).1,
+                emittedIds := s.emittedIds ++ (WriterSpec.flush (s.rows.map (·.drop r))).2.2 },
+       Out.mk (.ok true) (WriterSpec.flush (s.rows.map (·.drop r))).2.1 []) := by
+    simp [WriterSpec.step, hd', hm]
+  rw [e1, e2, hR.rows, hcols, hfl]
+  refine ⟨rfl, ?_⟩
+  have hreaders : (s.rows.map (·.drop r)).map SRow.readers = (s.rows.map SRow.readers).map (·.filter (· ≠ r)) := by
+    simp only [List.map_map]
+    apply List.map_congr_left
+    intro row _
+    exact drop_readers row.slots r
+  have hwid : (s.rows.map (·.drop r)).map (·.wid) = s.rows.map (·.wid) := by
+    simp only [List.map_map]; rfl
+  have hok : RowsOK (s.linked.filter (· ≠ r)) s.nextW (s.rows.map (·.drop r)) := by
+    refine ⟨?_, ?_, hwid ▸ hI.rows.wids, hwid ▸ hI.rows.widlt⟩
+    · rw [hreaders]
+      intro p hp
+      obtain ⟨q, hq, rfl⟩ := List.mem_map.1 hp
+      exact (hI.rows.pref q hq).filter _
+    · rw [hreaders, List.pairwise_map]
+      exact hI.rows.chain.imp fun h => h.filter _
+  have hnotin : r ∉ s.linked.filter (· ≠ r) := by simp
+  refine ⟨?_, rfl, hR.done, hR.closed, ?_, ?_, hR.fifoLe, hR.pendClosed, hR.dropsOpen, ?_, ?_⟩
+  · show m.readers.eraseIdx i = s.linked.filter (· ≠ r)
+    rw [hrd, hR.readers]
+  · show (m.links.eraseIdx i).length = (m.readers.eraseIdx i).length
+    rw [List.length_eraseIdx, List.length_eraseIdx, hR.linksLen]
+  · intro g hg
+    exact hR.linksLe g (List.mem_of_mem_eraseIdx hg)
+  · intro r'
+    have hlo : ∀ m' : W, m'.readers = m.readers.eraseIdx i → m'.links = m.links.eraseIdx i →
+        linkOf m' r' = linkAt r' (m.readers.eraseIdx i) (m.links.eraseIdx i) := by
+      intro m' h1 h2; rw [linkOf_eq, h1, h2]
+    rw [hlo _ rfl rfl]
+    show FifoOK _ (fifo m r') (s.owed r') (owedBy (WriterSpec.flush (s.rows.map (·.drop r))).1 r')
+    have hold := hR.fifo r'
+    by_cases e : r' = r
+    · subst e
+      have hnr : r' ∉ m.readers.eraseIdx i := by rw [hR.readers, ← hrd]; exact hnotin
+      rw [linkAt_not_mem _ hnr, owedBy_not_linked hok.flush.pref hnotin]
+      exact fifoOK_stale (fifoOK_len hold) (by simp)
+    · rw [linkAt_eraseIdx _ hi' e, owedBy_flush, drop_owedBy _ e, ← linkOf_eq]
+      exact hold
+  · exact ⟨hI.nodup.filter _, hok.flush, flush_head _, by simp [hd'], hI.owedLt⟩
+
+theorem newRow_eq (s : S) : newRow s.closed s.linked = (newSRow s).cells := by
+  simp [newSRow, SRow.cells, newRow]
+
+theorem newSRow_owes (s : S) (r : RId) : (newSRow s).owes r = (decide (r ∈ s.linked) && !s.closed r) := by
+  rw [owes_def]; exact newSlots_owes s.closed s.linked r
+
+theorem sim_write {m : W} {s : S} (hR : Rel m s) (v : Nat) :
+    (Writer.step m (.write v)).2 = (WriterSpec.step s (.write v)).2 ∧
+      Rel (Writer.step m (.write v)).1 (WriterSpec.step s (.write v)).1 := by
+  have hI := hR.inv
+  by_cases hd : s.done = true
+  · have hmd : m.done = true := hR.done.trans hd
+    have e1 : Writer.step m (.write v) = (m, Out.mk (.cnt 0) [] []) := by simp [Writer.step, stepWith, hmd]
+    have e2 : WriterSpec.step s (.write v) = (s, Out.mk (.cnt 0) [] []) := by simp [WriterSpec.step, hd]
+    rw [e1, e2]; exact ⟨rfl, hR⟩
+  have hd' : s.done = false := by simpa using hd
+  have hmd : m.done = false := hR.done.trans hd'
+  have hpanic : ¬ m.links.length < m.readers.length := by rw [hR.linksLen]; omega
   by_cases hacc : (accepting s.closed s.linked).length > 0
   rotate_left
   · have hnil : accepting s.closed s.linked = [] := by
       cases h : accepting s.closed s.linked with
       | nil => rfl
       | cons a t => simp [h] at hacc
-    refine ⟨?_, by simpa [WriterSpec.step, hd', hnil] using hI⟩
-    simp only [Writer.step, WriterSpec.step, absW, hd', hnil, List.length_nil, Nat.lt_irrefl, if_false,
-      Bool.false_eq_true, List.not_mem_nil]
-    split <;> rfl
-  have hne : s.linked.isEmpty = false := by
-    cases h : s.linked with
-    | nil => simp [h, accepting] at hacc
+    have hnil' : accepting m.closed m.readers = [] := by rw [hR.closed, hR.readers]; exact hnil
+    have e2 : WriterSpec.step s (.write v) = (s, Out.mk (.cnt 0) [] []) := by simp [WriterSpec.step, hd', hnil]
+    have e1 : Writer.step m (.write v) = (m, Out.mk (.cnt 0) [] []) := by
+      simp only [Writer.step, stepWith, hmd, hpanic, hnil', Bool.false_eq_true, if_false, List.length_nil,
+        Nat.lt_irrefl, List.not_mem_nil]
+      split
+      · rfl
+      · congr 1
+        cases m
+        simp only [W.mk.injEq]
+        simp_all
+    rw [e1, e2]; exact ⟨rfl, hR⟩
+  have hacc' : (accepting m.closed m.readers).length > 0 := by rw [hR.closed, hR.readers]; exact hacc
+  have hne : m.readers.isEmpty = false := by
+    cases h : m.readers with
+    | nil => simp [h, accepting] at hacc'
     | cons a t => rfl
-  have hstep : WriterSpec.step s (.write v) =
+  have e2 : WriterSpec.step s (.write v) =
       ({ s with rows := s.rows ++ [newSRow s],
                 owed := fun r => if r ∈ accepting s.closed s.linked then s.owed r ++ [s.nextW] else s.owed r,
                 nextW := s.nextW + 1 },
        Out.mk (.cnt (accepting s.closed s.linked).length) [] ((accepting s.closed s.linked).map fun r => (r, v))) := by
     simp [WriterSpec.step, hd', hacc, newSRow]
-  rw [hstep]
-  constructor
-  · simp only [Writer.step, absW, hd', hne, hacc, if_true, Bool.false_eq_true, if_false]
-    refine Prod.ext (W_eq rfl ?_ rfl ?_ (fun _ => rfl) ?_) rfl
-    · simp [newSRow, SRow.cells, newRow]
-    · intro r
-      by_cases hr : r ∈ accepting s.closed s.linked
-      · have := (mem_accepting.1 hr).2
-        simp [hr, this]
-      · simp [hr]
-    · intro r
-      by_cases hr : r ∈ accepting s.closed s.linked
-      · have := (mem_accepting.1 hr).2
-        simp [hr, this]
-      · simp [hr]
-  · have hreaders : (newSRow s).readers = s.linked := by
-      simp [newSRow, SRow.readers, List.map_map, Function.comp_def]
-    refine ⟨hI.nodup, ⟨?_, ?_, ?_, ?_⟩, ?_, ?_, by simp [hd']⟩
+  have e1 : Writer.step m (.write v) =
+      ({ m with pend := fun r => if r ∈ accepting m.closed m.readers then m.pend r ++ (linkOf m r).toList else m.pend r,
+                rows := m.rows ++ [newRow m.closed m.readers] },
+       Out.mk (.cnt (accepting m.closed m.readers).length) [] ((accepting m.closed m.readers).map fun r => (r, v))) := by
+    simp [Writer.step, stepWith, hmd, hne, hpanic, hacc']
+  rw [e1, e2]
+  refine ⟨by rw [hR.closed, hR.readers], ?_⟩
+  have hreaders : (newSRow s).readers = s.linked := by
+    simp [newSRow, SRow.readers, List.map_map, Function.comp_def]
+  have hmemacc : ∀ r, r ∈ accepting m.closed m.readers ↔ r ∈ s.linked ∧ s.closed r = false := by
+    intro r; rw [hR.closed, hR.readers]; exact mem_accepting
+  refine ⟨hR.readers, ?_, hR.done, hR.closed, hR.linksLen, hR.linksLe, ?_, ?_, hR.dropsOpen, ?_, ?_⟩
+  · show m.rows ++ [newRow m.closed m.readers] = (s.rows ++ [newSRow s]).map SRow.cells
+    rw [hR.rows, hR.closed, hR.readers, newRow_eq]; simp
+  · intro r g hg
+    by_cases hc : m.closed r = true
+    · have : fifo m r = m.drops r := by simp [fifo, hc]
+      exact hR.fifoLe r g (by rw [this]; simpa [fifo, hc] using hg)
+    · have hc' : m.closed r = false := by simpa using hc
+      have hold : fifo m r = m.pend r := by simp [fifo, hc']
+      simp only [fifo, hc', Bool.false_eq_true, if_false] at hg
+      split at hg
+      · simp only [List.mem_append] at hg
+        rcases hg with hg | hg
+        · exact hR.fifoLe r g (by rw [hold]; exact hg)
+        · cases hl : linkOf m r with
+          | none => simp [hl] at hg
+          | some l =>
+            simp only [hl, Option.toList_some, List.mem_singleton] at hg
+            subst hg
+            rw [linkOf_eq] at hl
+            exact hR.linksLe g (linkAt_mem hl)
+      · exact hR.fifoLe r g (by rw [hold]; exact hg)
+  · intro r hc
+    have : r ∉ accepting m.closed m.readers := by
+      intro h; have := (hmemacc r).1 h; rw [hR.closed] at hc; rw [hc] at this; exact absurd this.2 (by simp)
+    show (if r ∈ accepting m.closed m.readers then m.pend r ++ (linkOf m r).toList else m.pend r) = []
+    rw [if_neg this]; exact hR.pendClosed r hc
+  · intro r
+    have hold := hR.fifo r
+    show FifoOK (linkOf m r)
+      (if m.closed r then m.drops r
+        else (if r ∈ accepting m.closed m.readers then m.pend r ++ (linkOf m r).toList else m.pend r))
+      (if r ∈ accepting s.closed s.linked then s.owed r ++ [s.nextW] else s.owed r)
+      (owedBy (s.rows ++ [newSRow s]) r)
+    rw [owedBy_append, owedBy_cons, newSRow_owes]
+    have hnil : owedBy [] r = [] := rfl
+    by_cases hr : r ∈ s.linked ∧ s.closed r = false
+    · have h1 : r ∈ accepting m.closed m.readers := (hmemacc r).2 hr
+      have h2 : r ∈ accepting s.closed s.linked := mem_accepting.2 hr
+      have hc : m.closed r = false := by rw [hR.closed]; exact hr.2
+      obtain ⟨g, hg⟩ : ∃ g, linkOf m r = some g := by
+        rw [linkOf_eq]; exact linkAt_some_of_mem (hR.readers ▸ hr.1) hR.linksLen
+      simp only [fifo, hc, Bool.false_eq_true, if_false] at hold
+      simp only [hc, Bool.false_eq_true, if_false, h1, h2, if_true, hg, Option.toList_some, hr.1, hr.2,
+        decide_true, Bool.not_false, Bool.and_self, hnil]
+      rw [hg] at hold
+      exact fifoOK_push hold rfl (fun w' hw' => Nat.ne_of_lt (hI.owedLt r w' hw'))
+    · have h1 : r ∉ accepting m.closed m.readers := fun h => hr ((hmemacc r).1 h)
+      have h2 : r ∉ accepting s.closed s.linked := fun h => hr (mem_accepting.1 h)
+      have hno : (decide (r ∈ s.linked) && !s.closed r) = false := by
+        by_cases hl : r ∈ s.linked
+        · have : s.closed r = true := by
+            cases hc : s.closed r with
+            | true => rfl
+            | false => exact absurd ⟨hl, hc⟩ hr
+          simp [this]
+        · simp [hl]
+      simp only [h1, h2, if_false, hno, Bool.false_eq_true, hnil, List.append_nil]
+      exact hold
+  · refine ⟨hI.nodup, ⟨?_, ?_, ?_, ?_⟩, ?_, by simp [hd'], ?_⟩
     · intro p hp
       simp only [List.map_append, List.mem_append, List.map_cons, List.map_nil, List.mem_singleton] at hp
       rcases hp with hp | hp
@@ -378,29 +767,6 @@ theorem sim_write {s : S} (hI : Inv s) (v : Nat) :
       rcases hw with hw | hw
       · exact Nat.lt_succ_of_lt (hI.rows.widlt w hw)
       · rw [hw]; exact Nat.lt_succ_self _
-    · intro r hr
-      have hnew : (newSRow s).owes r = !s.closed r := by
-        rw [owes_def]
-        have := newSlots_owes s.closed s.linked r
-        simp only [newSRow]
-        rw [this]; simp [show r ∈ s.linked from hr]
-      show owedBy (s.rows ++ [newSRow s]) r = (if r ∈ accepting s.closed s.linked then s.owed r ++ [s.nextW] else s.owed r) ∨
-        (s.closed r = true ∧ owedBy (s.rows ++ [newSRow s]) r = [])
-      rw [owedBy_append, owedBy_cons, hnew]
-      have hold := hI.owe r hr
-      simp only [OweOK] at hold
-      by_cases hc : s.closed r = true
-      · have : r ∉ accepting s.closed s.linked := fun h => by simp [(mem_accepting.1 h).2] at hc
-        have hnil : owedBy [] r = [] := rfl
-        simp only [hc, Bool.not_true, Bool.false_eq_true, if_false, this, hnil, List.append_nil]
-        simpa [hc] using hold
-      · have hc' : s.closed r = false := by simpa using hc
-        have : r ∈ accepting s.closed s.linked := mem_accepting.2 ⟨hr, hc'⟩
-        left
-        rcases hold with h | h
-        · have hnil : owedBy [] r = [] := rfl
-          simp [hc', this, h, hnil, newSRow]
-        · exact absurd h.1 hc
     · intro row rest he
       cases hs : s.rows with
       | nil =>
@@ -417,165 +783,294 @@ theorem sim_write {s : S} (hI : Inv s) (v : Nat) :
         simp only [hs, List.cons_append, List.cons.injEq] at he
         rw [← he.1]
         exact hI.head r0 t0 hs
+    · intro r w hw
+      have hw' : w ∈ (if r ∈ accepting s.closed s.linked then s.owed r ++ [s.nextW] else s.owed r) := hw
+      split at hw'
+      · simp only [List.mem_append, List.mem_singleton] at hw'
+        rcases hw' with h | h
+        · exact Nat.lt_succ_of_lt (hI.owedLt r w h)
+        · rw [h]; exact Nat.lt_succ_self _
+      · exact Nat.lt_succ_of_lt (hI.owedLt r w hw')
 
 /-- The specification state after reader `r` popped the head of its queue. -/
 def popped (s : S) (r : RId) (rest : List Nat) : S :=
   { s with owed := fun x => if x = r then rest else s.owed x }
 
-theorem arrive_ret (s : S) (w : Nat) (r : RId) (a : Ans) : ∃ b, (arrive s w r a).2.ret = .ok b := by
-  simp only [arrive]
-  split
-  · exact ⟨_, rfl⟩
-  · split
-    · exact ⟨_, rfl⟩
-    · split <;> exact ⟨_, rfl⟩
+/-- Reader `r` pops the head `(g, w)` of its queue (an answer, or a drop notice being delivered)
+and the writer receives it: `m1` is the model state after the pop. -/
+theorem sim_pop {m m1 : W} {s : S} (hR : Rel m s) (r : RId) (g w : Nat) (gs ws : List Nat) (a : Ans)
+    (h1 : m1.readers = m.readers) (h2 : m1.links = m.links) (h3 : m1.linked = m.linked)
+    (h4 : m1.rows = m.rows) (h5 : m1.done = m.done) (h6 : m1.closed = m.closed)
+    (h7 : fifo m1 r = gs) (h8 : ∀ r', r' ≠ r → fifo m1 r' = fifo m r')
+    (h9 : ∀ r', m1.closed r' = true → m1.pend r' = []) (h10 : ∀ r', m1.closed r' = false → m1.drops r' = [])
+    (hf : fifo m r = g :: gs) (ho : s.owed r = w :: ws) :
+    (receive m1 a r g).2 = (arrive (popped s r ws) w r a).2 ∧
+      Rel (receive m1 a r g).1 (arrive (popped s r ws) w r a).1 := by
+  have hI := hR.inv
+  have hlo : ∀ x, linkOf m1 x = linkOf m x := by intro x; simp [linkOf, h1, h2]
+  have hfo := hR.fifo r
+  rw [hf, ho] at hfo
+  simp only [FifoOK] at hfo
+  have hI1 : Inv (popped s r ws) := by
+    refine ⟨hI.nodup, hI.rows, hI.head, hI.fin, ?_⟩
+    intro x w' hw'
+    have hw'' : w' ∈ (if x = r then ws else s.owed x) := hw'
+    split at hw''
+    · rename_i hx; subst hx; exact hI.owedLt x w' (by rw [ho]; simp [hw''])
+    · exact hI.owedLt x w' hw''
+  have hq : if some g = linkOf m1 r then ∃ ob', owedBy (popped s r ws).rows r = w :: ob'
+      else w ∉ owedBy (popped s r ws).rows r := by
+    rw [hlo]
+    show if some g = linkOf m r then ∃ ob', owedBy s.rows r = w :: ob' else w ∉ owedBy s.rows r
+    split at hfo
+    · rename_i hc; rw [if_pos hc]; obtain ⟨ob', e, _⟩ := hfo; exact ⟨ob', e⟩
+    · rename_i hc; rw [if_neg hc]; exact hfo.1
+  obtain ⟨o1, o2, o3, o4, o5⟩ := sim_arrive (m := m1) (s := popped s r ws) w g r a
+    (by rw [h1]; exact hR.readers) (by rw [h4]; exact hR.rows) (by rw [h5]; exact hR.done)
+    (by rw [h2, h1]; exact hR.linksLen) hI1 hq
+  obtain ⟨f1, f2, f3, f4, f5⟩ := arrive_fields (popped s r ws) w r a
+  refine ⟨o1, ?_⟩
+  rw [o2]
+  refine ⟨?_, rfl, ?_, ?_, ?_, ?_, ?_, h9, h10, ?_, o3⟩
+  · show m1.readers = _
+    rw [f1, h1]; exact hR.readers
+  · show m1.done = _
+    rw [f2, h5]; exact hR.done
+  · show m1.closed = _
+    rw [f3, h6]; exact hR.closed
+  · show m1.links.length = m1.readers.length
+    rw [h2, h1]; exact hR.linksLen
+  · intro x hx
+    have hx' : x ∈ m1.links := hx
+    rw [h2] at hx'
+    show x ≤ m1.linked
+    rw [h3]; exact hR.linksLe x hx'
+  · intro x y hy
+    have hy' : y ∈ fifo m1 x := hy
+    show y ≤ m1.linked
+    rw [h3]
+    by_cases hx : x = r
+    · subst hx; rw [h7] at hy'; exact hR.fifoLe x y (by rw [hf]; simp [hy'])
+    · rw [h8 x hx] at hy'; exact hR.fifoLe x y hy'
+  · intro x
+    show FifoOK (linkOf m1 x) (fifo m1 x) ((arrive (popped s r ws) w r a).1.owed x)
+      (owedBy (arrive (popped s r ws) w r a).1.rows x)
+    rw [f4, hlo]
+    by_cases hx : x = r
+    · subst hx
+      rw [h7, o5, hlo]
+      show FifoOK (linkOf m x) gs (if x = x then ws else s.owed x)
+        (if some g = linkOf m x then (owedBy s.rows x).tail else owedBy s.rows x)
+      rw [if_pos rfl]
+      split at hfo
+      · rename_i hc
+        obtain ⟨ob', e, hrest⟩ := hfo
+        rw [if_pos hc, e]; exact hrest
+      · rename_i hc
+        rw [if_neg hc]; exact hfo.2
+    · rw [h8 x hx, o4 x hx]
+      show FifoOK (linkOf m x) (fifo m x) (if x = r then ws else s.owed x) (owedBy s.rows x)
+      rw [if_neg hx]; exact hR.fifo x
 
-theorem sim_answer {s : S} (hI : Inv s) (r : RId) (a : Ans) :
-    Writer.step (absW s) (.answer r a) = (absW (WriterSpec.step s (.answer r a)).1, (WriterSpec.step s (.answer r a)).2) ∧
-      Inv (WriterSpec.step s (.answer r a)).1 := by
+def popPend (m : W) (r : RId) (gs : List Nat) : W :=
+  { m with pend := fun x => if x = r then gs else m.pend x }
+
+def popDrops (m : W) (r : RId) (gs : List Nat) : W :=
+  { m with drops := fun x => if x = r then gs else m.drops x }
+
+def closeReader (m : W) (r : RId) : W :=
+  { m with closed := fun x => if x = r then true else m.closed x,
+           drops := fun x => if x = r then m.pend r else m.drops x,
+           pend := fun x => if x = r then [] else m.pend x }
+
+theorem sim_answer {m : W} {s : S} (hR : Rel m s) (r : RId) (a : Ans) :
+    (Writer.step m (.answer r a)).2 = (WriterSpec.step s (.answer r a)).2 ∧
+      Rel (Writer.step m (.answer r a)).1 (WriterSpec.step s (.answer r a)).1 := by
   by_cases hc : s.closed r = true
-  · exact ⟨by simp [Writer.step, WriterSpec.step, absW, hc], by simpa [WriterSpec.step, hc] using hI⟩
+  · have hmc : m.closed r = true := by rw [hR.closed]; exact hc
+    have hp := hR.pendClosed r hmc
+    have e1 : Writer.step m (.answer r a) = (m, Out.mk (.ok false) [] []) := by simp [Writer.step, stepWith, hp]
+    have e2 : WriterSpec.step s (.answer r a) = (s, Out.mk (.ok false) [] []) := by simp [WriterSpec.step, hc]
+    rw [e1, e2]; exact ⟨rfl, hR⟩
   have hc' : s.closed r = false := by simpa using hc
-  cases ho : s.owed r with
-  | nil => exact ⟨by simp [Writer.step, WriterSpec.step, absW, hc', ho], by simpa [WriterSpec.step, hc', ho] using hI⟩
-  | cons w rest =>
-    have hspec : WriterSpec.step s (.answer r a) = arrive (popped s r rest) w r a := by
-      simp [WriterSpec.step, hc', ho, popped]
-    have hmodel : Writer.step (absW s) (.answer r a) = receive (absW (popped s r rest)) a r := by
-      simp only [Writer.step, absW, hc', ho, Bool.false_eq_true, if_false, List.length_cons, Nat.succ_ne_zero]
-      congr 1
-      refine W_eq rfl rfl rfl ?_ (fun _ => rfl) ?_
-      · intro x
-        by_cases hx : x = r
-        · subst hx; simp [popped, hc']
-        · simp [popped, hx]
-      · intro x
-        by_cases hx : x = r
-        · subst hx; simp [popped, hc']
-        · simp [popped, hx]
-    rw [hspec, hmodel]
-    apply sim_arrive (s := popped s r rest) w r a hI.nodup hI.rows hI.head hI.fin
-    · intro r' hr' hne
-      have := hI.owe r' hr'
-      simpa [OweOK, popped, hne] using this
-    · intro hr
-      left
-      rcases hI.owe r hr with h | h
-      · show owedBy s.rows r = w :: (if r = r then rest else s.owed r)
-        rw [h, ho]; simp
-      · exact absurd h.1 hc
+  have hmc : m.closed r = false := by rw [hR.closed]; exact hc'
+  have hfm : fifo m r = m.pend r := by simp [fifo, hmc]
+  have hlen := fifoOK_len (hR.fifo r)
+  rw [hfm] at hlen
+  cases hp : m.pend r with
+  | nil =>
+    have ho : s.owed r = [] := by rw [hp] at hlen; exact List.length_eq_zero_iff.1 hlen.symm
+    have e1 : Writer.step m (.answer r a) = (m, Out.mk (.ok false) [] []) := by simp [Writer.step, stepWith, hp]
+    have e2 : WriterSpec.step s (.answer r a) = (s, Out.mk (.ok false) [] []) := by simp [WriterSpec.step, hc', ho]
+    rw [e1, e2]; exact ⟨rfl, hR⟩
+  | cons g gs =>
+    cases ho : s.owed r with
+    | nil => rw [hp, ho] at hlen; simp at hlen
+    | cons w ws =>
+      have e1 : Writer.step m (.answer r a) = receive (popPend m r gs) a r g := by
+        simp [Writer.step, stepWith, hp, popPend]
+      have e2 : WriterSpec.step s (.answer r a) = arrive (popped s r ws) w r a := by
+        simp [WriterSpec.step, hc', ho, popped]
+      rw [e1, e2]
+      apply sim_pop (m1 := popPend m r gs) hR r g w gs ws a rfl rfl rfl rfl rfl rfl
+      · simp [fifo, popPend, hmc]
+      · intro r' hne; simp [fifo, popPend, hne]
+      · intro r' hcl0
+        have hcl : m.closed r' = true := hcl0
+        show (if r' = r then gs else m.pend r') = []
+        have hne : r' ≠ r := fun e => by rw [e, hmc] at hcl; cases hcl
+        rw [if_neg hne]; exact hR.pendClosed r' hcl
+      · exact hR.dropsOpen
+      · rw [hfm, hp]
+      · exact ho
 
-theorem sim_closeR {s : S} (hI : Inv s) (r : RId) :
-    Writer.step (absW s) (.closeR r) = (absW (WriterSpec.step s (.closeR r)).1, (WriterSpec.step s (.closeR r)).2) ∧
-      Inv (WriterSpec.step s (.closeR r)).1 := by
+theorem sim_closeR {m : W} {s : S} (hR : Rel m s) (r : RId) :
+    (Writer.step m (.closeR r)).2 = (WriterSpec.step s (.closeR r)).2 ∧
+      Rel (Writer.step m (.closeR r)).1 (WriterSpec.step s (.closeR r)).1 := by
   by_cases hc : s.closed r = true
-  · exact ⟨by simp [Writer.step, WriterSpec.step, absW, hc], by simpa [WriterSpec.step, hc] using hI⟩
+  · have hmc : m.closed r = true := by rw [hR.closed]; exact hc
+    have e1 : Writer.step m (.closeR r) = (m, Out.mk (.cnt 0) [] []) := by simp [Writer.step, stepWith, hmc]
+    have e2 : WriterSpec.step s (.closeR r) = (s, Out.mk (.cnt 0) [] []) := by simp [WriterSpec.step, hc]
+    rw [e1, e2]; exact ⟨rfl, hR⟩
   have hc' : s.closed r = false := by simpa using hc
-  constructor
-  · simp only [Writer.step, WriterSpec.step, absW, hc', Bool.false_eq_true, if_false]
-    refine Prod.ext (W_eq rfl rfl rfl ?_ (fun _ => rfl) ?_) rfl
-    · intro x
-      by_cases hx : x = r
-      · subst hx; simp
-      · simp [hx]
-    · intro x
-      by_cases hx : x = r
-      · subst hx; simp [hc']
-      · simp [hx]
-  · simp only [WriterSpec.step, hc', Bool.false_eq_true, if_false]
-    refine ⟨hI.nodup, hI.rows, ?_, hI.head, hI.fin⟩
-    intro r' hr'
-    rcases hI.owe r' hr' with h | h
-    · exact Or.inl h
-    · refine Or.inr ⟨?_, h.2⟩
-      show (if r' = r then true else s.closed r') = true
-      split
-      · rfl
-      · exact h.1
+  have hmc : m.closed r = false := by rw [hR.closed]; exact hc'
+  have hfm : fifo m r = m.pend r := by simp [fifo, hmc]
+  have hlen := fifoOK_len (hR.fifo r)
+  rw [hfm] at hlen
+  have e1 : Writer.step m (.closeR r) = (closeReader m r, Out.mk (.cnt (m.pend r).length) [] []) := by
+    simp [Writer.step, stepWith, hmc, closeReader]
+  have e2 : WriterSpec.step s (.closeR r) =
+      ({ s with closed := fun x => if x = r then true else s.closed x }, Out.mk (.cnt (s.owed r).length) [] []) := by
+    simp [WriterSpec.step, hc']
+  rw [e1, e2]
+  refine ⟨by rw [hlen], ?_⟩
+  have hfifo : ∀ x, fifo (closeReader m r) x = fifo m x := by
+    intro x
+    by_cases hx : x = r
+    · subst hx; simp [fifo, closeReader, hmc]
+    · simp [fifo, closeReader, hx]
+  refine ⟨hR.readers, hR.rows, hR.done, ?_, hR.linksLen, hR.linksLe, ?_, ?_, ?_, ?_, ?_⟩
+  · show (fun x => if x = r then true else m.closed x) = fun x => if x = r then true else s.closed x
+    rw [hR.closed]
+  · intro x g hg; rw [hfifo] at hg; exact hR.fifoLe x g hg
+  · intro x hx0
+    have hx : (if x = r then true else m.closed x) = true := hx0
+    show (if x = r then [] else m.pend x) = []
+    split
+    · rfl
+    · rename_i hne
+      have : m.closed x = true := by simpa [hne] using hx
+      exact hR.pendClosed x this
+  · intro x hx0
+    have hx : (if x = r then true else m.closed x) = false := hx0
+    show (if x = r then m.pend r else m.drops x) = []
+    have hne : ¬ x = r := fun e => by simp [e] at hx
+    rw [if_neg hne]
+    have : m.closed x = false := by simpa [hne] using hx
+    exact hR.dropsOpen x this
+  · intro x; rw [hfifo]; exact hR.fifo x
+  · exact ⟨hR.inv.nodup, hR.inv.rows, hR.inv.head, hR.inv.fin, hR.inv.owedLt⟩
 
-theorem sim_drop {s : S} (hI : Inv s) (r : RId) :
-    Writer.step (absW s) (.deliverDrop r) =
-        (absW (WriterSpec.step s (.deliverDrop r)).1, (WriterSpec.step s (.deliverDrop r)).2) ∧
-      Inv (WriterSpec.step s (.deliverDrop r)).1 := by
+theorem sim_drop {m : W} {s : S} (hR : Rel m s) (r : RId) :
+    (Writer.step m (.deliverDrop r)).2 = (WriterSpec.step s (.deliverDrop r)).2 ∧
+      Rel (Writer.step m (.deliverDrop r)).1 (WriterSpec.step s (.deliverDrop r)).1 := by
   by_cases hc : s.closed r = true
   rotate_left
   · have hc' : s.closed r = false := by simpa using hc
-    exact ⟨by simp [Writer.step, WriterSpec.step, absW, hc'], by simpa [WriterSpec.step, hc'] using hI⟩
-  cases ho : s.owed r with
-  | nil => exact ⟨by simp [Writer.step, WriterSpec.step, absW, hc, ho], by simpa [WriterSpec.step, hc, ho] using hI⟩
-  | cons w rest =>
-    have hmodel : { absW s with drops := fun x => if x = r then (absW s).drops r - 1 else (absW s).drops x }
-        = absW (popped s r rest) := by
-      refine W_eq rfl rfl rfl ?_ (fun _ => rfl) ?_
-      · intro x
-        by_cases hx : x = r
-        · subst hx; simp [absW, popped, hc]
-        · simp [absW, popped, hx]
-      · intro x
-        by_cases hx : x = r
-        · subst hx; simp [absW, popped, hc, ho]
-        · simp [absW, popped, hx]
-    have hsim := sim_arrive (s := popped s r rest) w r Ans.dropped hI.nodup hI.rows hI.head hI.fin
-      (by
-        intro r' hr' hne
-        have := hI.owe r' hr'
-        simpa [OweOK, popped, hne] using this)
-      (by
-        intro hr
-        rcases hI.owe r hr with h | h
-        · left
-          show owedBy s.rows r = w :: (if r = r then rest else s.owed r)
-          rw [h, ho]; simp
-        · exact Or.inr h)
-    obtain ⟨b, hb⟩ := arrive_ret (popped s r rest) w r Ans.dropped
-    have hd0 : (absW s).drops r ≠ 0 := by simp [absW, hc, ho]
-    constructor
-    · simp only [Writer.step, hd0, if_false]
-      rw [hmodel, hsim.1]
-      have hb' := hb
-      simp only [popped] at hb'
-      simp [WriterSpec.step, hc, ho, popped, hb']
-    · have : (WriterSpec.step s (.deliverDrop r)).1 = (arrive (popped s r rest) w r Ans.dropped).1 := by
+    have hmc : m.closed r = false := by rw [hR.closed]; exact hc'
+    have hdz := hR.dropsOpen r hmc
+    have e1 : Writer.step m (.deliverDrop r) = (m, Out.mk .skip [] []) := by simp [Writer.step, stepWith, hdz]
+    have e2 : WriterSpec.step s (.deliverDrop r) = (s, Out.mk .skip [] []) := by simp [WriterSpec.step, hc']
+    rw [e1, e2]; exact ⟨rfl, hR⟩
+  have hmc : m.closed r = true := by rw [hR.closed]; exact hc
+  have hfm : fifo m r = m.drops r := by simp [fifo, hmc]
+  have hlen := fifoOK_len (hR.fifo r)
+  rw [hfm] at hlen
+  cases hp : m.drops r with
+  | nil =>
+    have ho : s.owed r = [] := by rw [hp] at hlen; exact List.length_eq_zero_iff.1 hlen.symm
+    have e1 : Writer.step m (.deliverDrop r) = (m, Out.mk .skip [] []) := by simp [Writer.step, stepWith, hp]
+    have e2 : WriterSpec.step s (.deliverDrop r) = (s, Out.mk .skip [] []) := by simp [WriterSpec.step, hc, ho]
+    rw [e1, e2]; exact ⟨rfl, hR⟩
+  | cons g gs =>
+    cases ho : s.owed r with
+    | nil => rw [hp, ho] at hlen; simp at hlen
+    | cons w ws =>
+      have hpop := sim_pop (m1 := popDrops m r gs) hR r g w gs ws Ans.dropped rfl rfl rfl rfl rfl rfl
+        (by simp [fifo, popDrops, hmc]) (by intro r' hne; simp [fifo, popDrops, hne])
+        (by intro r' hcl; exact hR.pendClosed r' hcl)
+        (by
+          intro r' hcl0
+          have hcl : m.closed r' = false := hcl0
+          show (if r' = r then gs else m.drops r') = []
+          have hne : r' ≠ r := fun e => by rw [e, hmc] at hcl; cases hcl
+          rw [if_neg hne]; exact hR.dropsOpen r' hcl)
+        (by rw [hfm, hp]) ho
+      obtain ⟨b, hb⟩ := arrive_ret (popped s r ws) w r Ans.dropped
+      have hret : (receiveWith true (popDrops m r gs) Ans.dropped r g).2.ret = .ok b := by
+        have := hpop.1; simp only [receive] at this; rw [this]; exact hb
+      have e1 : Writer.step m (.deliverDrop r) =
+          ((receive (popDrops m r gs) Ans.dropped r g).1,
+           { (receive (popDrops m r gs) Ans.dropped r g).2 with ret := .unit }) := by
+        simp only [popDrops] at hret
+        simp [Writer.step, stepWith, hp, popDrops, hret]
+      have e2 : WriterSpec.step s (.deliverDrop r) =
+          ((arrive (popped s r ws) w r Ans.dropped).1,
+           { (arrive (popped s r ws) w r Ans.dropped).2 with ret := .unit }) := by
         simp [WriterSpec.step, hc, ho, popped]
-      rw [this]; exact hsim.2
+      rw [e1, e2]
+      refine ⟨?_, hpop.2⟩
+      rw [hpop.1]
 
-theorem sim_closeW {s : S} (hI : Inv s) :
-    Writer.step (absW s) .closeW = (absW (WriterSpec.step s .closeW).1, (WriterSpec.step s .closeW).2) ∧
-      Inv (WriterSpec.step s .closeW).1 := by
+theorem sim_closeW {m : W} {s : S} (hR : Rel m s) :
+    (Writer.step m .closeW).2 = (WriterSpec.step s .closeW).2 ∧
+      Rel (Writer.step m .closeW).1 (WriterSpec.step s .closeW).1 := by
   by_cases hd : s.done = true
-  · exact ⟨by simp [Writer.step, WriterSpec.step, absW, hd], by simpa [WriterSpec.step, hd] using hI⟩
+  · have hmd : m.done = true := hR.done.trans hd
+    have e1 : Writer.step m .closeW = (m, Out.mk .unit [] []) := by simp [Writer.step, stepWith, hmd]
+    have e2 : WriterSpec.step s .closeW = (s, Out.mk .unit [] []) := by simp [WriterSpec.step, hd]
+    rw [e1, e2]; exact ⟨rfl, hR⟩
   have hd' : s.done = false := by simpa using hd
-  refine ⟨by simp [Writer.step, WriterSpec.step, absW, hd'], ?_⟩
-  simp only [WriterSpec.step, hd', Bool.false_eq_true, if_false]
-  exact ⟨by simp, ⟨by simp, by simp, by simp, by simp⟩, by simp, by simp, by simp⟩
+  have hmd : m.done = false := hR.done.trans hd'
+  have e1 : Writer.step m .closeW =
+      ({ m with done := true, readers := [], links := [], rows := [] },
+       Out.mk .unit (m.rows.map fun _ => Resp.dropped) []) := by simp [Writer.step, stepWith, hmd]
+  have e2 : WriterSpec.step s .closeW =
+      ({ s with done := true, linked := [], rows := [], emittedIds := s.emittedIds ++ s.rows.map (·.wid) },
+       Out.mk .unit (s.rows.map fun _ => Resp.dropped) []) := by simp [WriterSpec.step, hd']
+  rw [e1, e2]
+  refine ⟨by rw [hR.rows]; simp, ?_⟩
+  refine ⟨rfl, rfl, rfl, hR.closed, rfl, by simp, hR.fifoLe, hR.pendClosed, hR.dropsOpen, ?_, ?_⟩
+  · intro r
+    have hold := hR.fifo r
+    show FifoOK (linkOf { m with done := true, readers := [], links := [], rows := [] } r) (fifo m r) (s.owed r) (owedBy [] r)
+    have : linkOf { m with done := true, readers := [], links := [], rows := [] } r = none := by simp [linkOf, indexOf]
+    rw [this]
+    exact fifoOK_stale (fifoOK_len hold) (by simp)
+  · exact ⟨by simp, ⟨by simp, by simp, by simp, by simp⟩, by simp, by simp, hR.inv.owedLt⟩
 
-/-- One step of the model from `absW s` is one step of the specification from `s`, unless the
-step re-links an open reader that still has unanswered requests. -/
-theorem sim_step {s : S} (hI : Inv s) (st : Step) (hn : relinkPending (absW s) st = false) :
-    Writer.step (absW s) st = (absW (WriterSpec.step s st).1, (WriterSpec.step s st).2) ∧
-      Inv (WriterSpec.step s st).1 := by
+/-- One step of the model is one step of the specification – every step, from every related
+pair of states. -/
+theorem sim_step {m : W} {s : S} (hR : Rel m s) (st : Step) :
+    (Writer.step m st).2 = (WriterSpec.step s st).2 ∧ Rel (Writer.step m st).1 (WriterSpec.step s st).1 := by
   cases st with
-  | link r => exact sim_link hI r hn
-  | unlink r => exact sim_unlink hI r
-  | write v => exact sim_write hI v
-  | answer r a => exact sim_answer hI r a
-  | closeR r => exact sim_closeR hI r
-  | deliverDrop r => exact sim_drop hI r
-  | closeW => exact sim_closeW hI
+  | link r => exact sim_link hR r
+  | unlink r => exact sim_unlink hR r
+  | write v => exact sim_write hR v
+  | answer r a => exact sim_answer hR r a
+  | closeR r => exact sim_closeR hR r
+  | deliverDrop r => exact sim_drop hR r
+  | closeW => exact sim_closeW hR
 
-theorem sim_run {s : S} (hI : Inv s) (h : List Step) (hn : NoRelink (absW s) h) :
-    (Writer.runFrom (absW s) h).2 = (WriterSpec.runFrom s h).2 ∧
-    (Writer.runFrom (absW s) h).1 = absW (WriterSpec.runFrom s h).1 ∧ Inv (WriterSpec.runFrom s h).1 := by
-  induction h generalizing s with
-  | nil => exact ⟨rfl, rfl, hI⟩
+theorem sim_run {m : W} {s : S} (hR : Rel m s) (h : List Step) :
+    (Writer.runFrom m h).2 = (WriterSpec.runFrom s h).2 ∧
+    Rel (Writer.runFrom m h).1 (WriterSpec.runFrom s h).1 := by
+  induction h generalizing m s with
+  | nil => exact ⟨rfl, hR⟩
   | cons st h ih =>
-    obtain ⟨h1, h2⟩ := hn
-    obtain ⟨e, hI'⟩ := sim_step hI st h1
-    have e1 : (Writer.step (absW s) st).1 = absW (WriterSpec.step s st).1 := by rw [e]
-    have e2 : (Writer.step (absW s) st).2 = (WriterSpec.step s st).2 := by rw [e]
-    rw [e1] at h2
-    obtain ⟨i1, i2, i3⟩ := ih hI' h2
-    simp only [Writer.runFrom, WriterSpec.runFrom, e1, e2, i1, i2]
-    exact ⟨trivial, trivial, i3⟩
+    obtain ⟨e, hR'⟩ := sim_step hR st
+    obtain ⟨i1, i2⟩ := ih hR'
+    simp only [Writer.runFrom, WriterSpec.runFrom, e, i1]
+    exact ⟨trivial, i2⟩
 
 end Uniflow.WriterProofs
